@@ -533,6 +533,9 @@ def _get_spendable_utxos(transaction: sqlite3.Connection, accounts: List, decode
             decoded_transactions[txid] = Transaction(raw)
         decoded_tx = decoded_transactions[txid]
         # save the unconfirmed txo for possible use later, if still needed
+        if amount <= Input.spend(decoded_tx.outputs[nout]).size * fee_per_byte:
+            # worth no more than the fee to spend it: it can never help to fund anything
+            continue
         if verified:
             # add the txo to the reservation, minus the fee for including it
             reserved_amount += amount
